@@ -460,28 +460,35 @@ theorem bConst_pos {eps T rho b0 F eps0 R : ℝ} (he : 0 < eps) (hT : 0 < T) (hr
 theorem limitingLogGamma_eq (IS z A I0 : ℝ) :
     limitingLogGamma IS z A I0 = -A * z ^ 2 * Real.sqrt (IS / I0) := by
   simp only [limitingLogGamma, NumReal.rpow_def, NumReal.npow_eq_pow, Nat.cast_one, Nat.cast_ofNat, Real.sqrt_eq_rpow]
+  try ring
 
 theorem extendedLogGamma_eq (IS z a A B C I0 : ℝ) :
     extendedLogGamma IS z a A B C I0
       = -A * z ^ 2 * Real.sqrt (IS / I0) / (1 + B * a * Real.sqrt (IS / I0)) + C * (IS / I0) := by
   simp only [extendedLogGamma, NumReal.rpow_def, NumReal.npow_eq_pow, Nat.cast_one, Nat.cast_ofNat, Real.sqrt_eq_rpow]
+  try ring
 
 theorem daviesLogGamma_eq (IS z A C I0 : ℝ) :
     daviesLogGamma IS z A C I0
       = -A * z ^ 2 * (Real.sqrt (IS / I0) / (1 + Real.sqrt (IS / I0)) + C * (IS / I0)) := by
   simp only [daviesLogGamma, NumReal.rpow_def, NumReal.npow_eq_pow, Nat.cast_one, Nat.cast_ofNat, Real.sqrt_eq_rpow]
+  try ring
 
 theorem limitingLogGammaD_eq (IS z A : ℝ) : limitingLogGammaD IS z A = limitingLogGamma IS z A 1 := by
   simp only [limitingLogGammaD, limitingLogGamma, Nat.cast_one]
+  try ring
 
 theorem extendedLogGammaDC_eq (IS z a A B C : ℝ) : extendedLogGammaDC IS z a A B C = extendedLogGamma IS z a A B C 1 := by
   simp only [extendedLogGammaDC, extendedLogGamma, Nat.cast_one]
+  try ring
 
 theorem extendedLogGammaD_eq (IS z a A B : ℝ) : extendedLogGammaD IS z a A B = extendedLogGamma IS z a A B 0 1 := by
   simp only [extendedLogGammaD, extendedLogGamma, Nat.cast_one, Nat.cast_zero]
+  try ring
 
 theorem daviesLogGammaDC_eq (IS z A C : ℝ) : daviesLogGammaDC IS z A C = daviesLogGamma IS z A C 1 := by
   simp only [daviesLogGammaDC, daviesLogGamma, Nat.cast_one]
+  try ring
 
 theorem daviesLogGammaD_eq (IS z A : ℝ) : daviesLogGammaD IS z A = daviesLogGamma IS z A (-(3 / 10)) 1 := by
   simp only [daviesLogGammaD, daviesLogGamma, Nat.cast_one, NumReal.dec_eq]
